@@ -21,7 +21,12 @@ pub(super) fn next<'a>(src: &mut &'a [u8]) -> Option<io::Result<(&'a [u8], &'a [
 
     let tag = match take_tag(src) {
         Ok(buf) => buf,
-        Err(e) => return Some(Err(e)),
+        Err(e) => {
+            // An invalid field is not consumed. Discard the remaining input, so that the error
+            // is returned once rather than forever.
+            *src = &[];
+            return Some(Err(e));
+        }
     };
 
     let value = take_value(src);
@@ -95,5 +100,13 @@ mod tests {
         ));
 
         Ok(())
+    }
+
+    #[test]
+    fn test_next_with_an_invalid_field() {
+        let mut src = &b"ID=1;Name"[..];
+        assert!(matches!(next(&mut src), Some(Ok(_))));
+        assert!(matches!(next(&mut src), Some(Err(_))));
+        assert!(next(&mut src).is_none());
     }
 }
